@@ -10,26 +10,39 @@ timeout applies for DEFAULT_TIMEOUT, anything else is passed on -/
 theorem backend_timeout_cases (d : Django) :
     d.backendTimeout .forever = none ∧ d.backendTimeout .dflt = d.defaultTimeout ∧
     d.backendTimeout (.secs 0) = some (-1) ∧ (∀ t, t ≠ 0 → d.backendTimeout (.secs t) = some t) := by
-  sorry
+  refine ⟨rfl, rfl, rfl, ?_⟩
+  intro t ht
+  simp [backendTimeout, ht]
 
 /-- a zero or negative timeout means already expired: the expiry instant lies strictly before
 the store instant, so no look-up at or after the store instant finds the item live -/
 theorem nonpositive_timeout_expired (d : Django) (t : Int) (ht : t ≤ 0) (now now' : Int) (hn : now ≤ now')
     (r : Row) (hr : r.expT = (d.backendTimeout (.secs t)).map (now + ·)) :
     Cache.live now' r = false := by
-  sorry
+  unfold Cache.live
+  rw [hr]
+  unfold backendTimeout
+  by_cases h0 : t = 0
+  · simp [h0]; omega
+  · simp [h0]; omega
 
 /-- None means forever -/
 theorem forever_never_expires (d : Django) (now now' : Int) (r : Row)
     (hr : r.expT = (d.backendTimeout .forever).map (now + ·)) : Cache.live now' r = true := by
-  sorry
+  unfold Cache.live
+  rw [hr]
+  rfl
 
 /-- keys are namespaced by version: different versions never address the same entry, and
 within one version different keys never do -/
 theorem makeKey_inj (d : Django) (k₁ k₂ : Str) (v₁ v₂ : Option Int)
     (h : d.makeKey k₁ v₁ = d.makeKey k₂ v₂) :
     v₁.getD d.version = v₂.getD d.version ∧ k₁ = k₂ := by
-  sorry
+  rw [makeKey_eq, makeKey_eq] at h
+  injection h with h
+  have h := List.append_cancel_left h
+  have := split_at_sep 58 _ _ _ _ (verStr_no_sep _) (verStr_no_sep _) h
+  exact ⟨verStr_inj _ _ this.1, this.2⟩
 
 /-- incr/decr on a key with no live entry raise ValueError (the missing and the expired case) -/
 theorem incr_missing_valueerror (d : Django) (E : Externals) (now : Int) (k : Str) (delta : Int)
@@ -38,14 +51,21 @@ theorem incr_missing_valueerror (d : Django) (E : Externals) (now : Int) (k : St
     (hdead : ∀ r ∈ s.rows, Cache.keyMatch (put E s.cfg.disk (d.makeKey k v)).1 (put E s.cfg.disk (d.makeKey k v)).2 r = true →
       Cache.expired now r = true) (hdepth : s.depth = 0) :
     (d.incr E now k delta v).2 = .exc "ValueError" := by
-  sorry
+  have h : (d.fan.keyed E (d.makeKey k v) (fun s => s.incr E now (d.makeKey k v) delta none)).2
+      = .exc "KeyError" := by
+    unfold Fanout.keyed Fanout.onShard
+    rw [hs]
+    exact cache_incr_dead { s with env := d.fan.env, envMiss := false, trace := [] } E now _ delta
+      hdead hdepth
+  unfold Django.incr
+  simp only [h]
 
 /-- the methods delegate to the sharded cache under the namespaced key: `get` returns what
 the shard's `get` returns for `make_key(key, version)` -/
 theorem get_delegates (d : Django) (E : Externals) (now : Int) (k : Str) (v : Option Int) :
     (d.get E now k v).2 =
       (d.fan.keyed E (d.makeKey k v) (fun s => s.get E now (d.makeKey k v) false false false)).2 := by
-  sorry
+  rfl
 
 example : (({ fan := { shards := [] }, keyPrefix := [112], version := 2 } : Django).makeKey [107] none) =
     .str [112, 58, 50, 58, 107] := by decide
